@@ -1,0 +1,83 @@
+//! Verification hooks (cargo feature `verif`, off by default).
+//!
+//! Nothing in this module is compiled in a normal build. It provides
+//! * an append-only event sink the library reports selected decisions to,
+//! * named scheduling points at which an external harness may force the
+//!   current task to yield, so that pre-emptions between critical sections
+//!   can be enumerated deterministically.
+
+use std::cell::RefCell;
+use std::net::SocketAddr;
+use std::sync::Mutex;
+
+/// Events reported by the library to the verification harness.
+#[derive(Debug, Clone, PartialEq, Eq)]
+pub enum Event {
+    /// Destination decoded by the server-side stream handler.
+    Destination {
+        session: u64,
+        stream: u32,
+        host: String,
+        port: u16,
+    },
+    /// Outbound TCP dial about to be attempted by the server-side handler.
+    Dial {
+        session: u64,
+        stream: u32,
+        addr: SocketAddr,
+    },
+    /// Target decoded by the server-side UDP-over-TCP handler.
+    UdpTarget { stream: u32, addr: SocketAddr },
+    /// Session pool housekeeping is about to close a session.
+    PoolReap {
+        session: u64,
+        seq: u64,
+        already_closed: bool,
+    },
+}
+
+static EVENTS: Mutex<Vec<Event>> = Mutex::new(Vec::new());
+
+/// Append an event to the process-wide sink.
+pub fn emit(event: Event) {
+    EVENTS.lock().unwrap_or_else(|e| e.into_inner()).push(event);
+}
+
+/// Copy of all events recorded so far.
+pub fn events() -> Vec<Event> {
+    EVENTS.lock().unwrap_or_else(|e| e.into_inner()).clone()
+}
+
+/// Number of events recorded so far.
+pub fn event_count() -> usize {
+    EVENTS.lock().unwrap_or_else(|e| e.into_inner()).len()
+}
+
+/// Remove and return all recorded events.
+pub fn take_events() -> Vec<Event> {
+    std::mem::take(&mut *EVENTS.lock().unwrap_or_else(|e| e.into_inner()))
+}
+
+/// Decides, per hit of a named scheduling point, how many times the current
+/// task yields to the scheduler before continuing.
+pub type SchedController = Box<dyn FnMut(&'static str) -> u32>;
+
+thread_local! {
+    static SCHED: RefCell<Option<SchedController>> = const { RefCell::new(None) };
+}
+
+/// Install (or remove) the scheduling controller of the current thread.
+pub fn set_sched_controller(ctrl: Option<SchedController>) {
+    SCHED.with(|s| *s.borrow_mut() = ctrl);
+}
+
+/// A named scheduling point. Without a controller on this thread it is a no-op.
+pub async fn sched_point(name: &'static str) {
+    let yields = SCHED.with(|s| match s.borrow_mut().as_mut() {
+        Some(ctrl) => ctrl(name),
+        None => 0,
+    });
+    for _ in 0..yields {
+        tokio::task::yield_now().await;
+    }
+}
